@@ -166,6 +166,26 @@ def check_cifar(inp):
   d = cifar100.preprocess_image_tff(img, h, w, distort=True)
   if d.shape != (2, h, w, 3):
     return f'training crop has shape {d.shape}'
+  if kind == 'random' and (h, w) in ((24, 24), (5, 7), (17, 32)):
+    # every training crop is the standardisation of a sub-window of ITS image, as it is or mirrored left-right (a
+    # horizontal flip); drawn for several seeds so that both flip outcomes occur
+    for sd in range(seed, seed + 4):
+      np.random.seed(sd)
+      dd = np.asarray(cifar100.preprocess_image_tff(img, h, w, distort=True))
+      for n_ in range(2):
+        found = False
+        for i_ in range(32 - h + 1):
+          for j_ in range(32 - w + 1):
+            win = img[n_, i_:i_ + h, j_:j_ + w].astype(np.float32)
+            std = (win - win.mean()) / max(float(win.std()), 1.0 / np.sqrt(win.size))   # TF's definition (checked above)
+            if np.abs(std - dd[n_]).max() < 1e-3 or np.abs(std[:, ::-1] - dd[n_]).max() < 1e-3:
+              found = True
+              break
+          if found:
+            break
+        if not found:
+          return (f'training crop {h}x{w} (numpy seed {sd}, image {n_}) is not the standardised sub-window of its image, neither as it '
+                  'is nor mirrored left-right (e.g. flipped upside down)')
   # the public batch wrapper agrees with the function it wraps (non-square crops included) and passes the labels through
   ys = np.arange(2, dtype=np.int32)
   b = cifar100.preprocess_batch_tff({'x': img, 'y': ys}, crop_height=h, crop_width=w)
